@@ -157,6 +157,15 @@ def run(ctx):
                               note="variant table does not map the search term in an enabled style to the replacement in that style")
                 return
     ctx.count("vmap", len(vreqs))
+    # variant table, model vs implementation (plural variants disabled; is_ambiguous is a parameter of the model)
+    terms = sorted({m[3] for m in vmeta})
+    amb = dict(zip(terms, (a.split()[1] for a in common.run_impl(["ambig " + hexs(t) for t in terms]))))
+    mreqs = []
+    for req in vreqs:
+        f = req.split()
+        mreqs.append(f"vmapm {f[1]} {f[2]} {f[3]} {amb[unhex(f[1]).decode()]}")
+    common.correspond(ctx, "generate_variant_map (no plurals) vs CaseModel.variantMap", mreqs)
+    ctx.count("vmapm", len(mreqs))
     ctx.sample({"vmap": vreqs[0], "impl": vres[0][:200]})
 
 
